@@ -321,7 +321,11 @@ def check(case, ctx):
             fails.append({"monitor": "c17.pandas", "sig": sig, "detail": d})
     elif m in ROLL and case["index_kind"] in ("default", "perm"):
         name = m.replace("rolling_", "")
-        pr = getattr(pg.rolling(w, min_periods=1), name)()
+        try:
+            pr = getattr(pg.rolling(w, min_periods=1), name)()
+        except ValueError:  # pandas itself cannot roll over a grouping without groups
+            ctx.count("pandas_reference_unavailable")
+            return fails
         pr = pr.reset_index(level=list(range(pr.index.nlevels - 1)), drop=True) if pr.index.nlevels > 1 else pr
         pr = pr.reindex(obj.index) if obj.index.is_unique else None
         if pr is not None and isinstance(fr, (pd.Series, pd.DataFrame)):
